@@ -63,6 +63,13 @@ GRAPHS = [
 
 def build(w, graph, keys_differ=False):
     mfa, leafs = SYS.build_system(w, graph)
+    if keys_differ == "shared":     # flows and stocks are separate collections: a stock may go by the name of a flow
+        if mfa.f["stocks"]:
+            first_flow = next(iter(mfa.f["flows"]))
+            st = dict(mfa.f["stocks"])
+            k0 = next(iter(st))
+            mfa.f["stocks"] = {(first_flow if k == k0 else k): v for k, v in st.items()}
+        return mfa
     if keys_differ:     # a hand-assembled system: dictionary keys are not the objects' own names
         flows = mfa.f["flows"]
         mfa.f["flows"] = {f"key {i}: {k}": v for i, (k, v) in enumerate(flows.items())}
@@ -93,7 +100,7 @@ def dict_cases(prog, rep, fails):
     rid = "C19.dictionary"
     fn = prog.func(MOD, "convert_to_dict")
     for gi, graph in enumerate(GRAPHS):
-        for keys_differ in (False, True):
+        for keys_differ in ((False, True, "shared") if graph[2] else (False, True)):
             for typ in ("numpy", "pandas", "default"):
                 w = World(prog)
                 it = w.it
@@ -163,7 +170,7 @@ def valid_name(it, prog, s):
 
 def file_cases(prog, rep, fails):
     for gi, graph in enumerate(GRAPHS):
-        for keys_differ in (False, True):
+        for keys_differ in ((False, True, "shared") if graph[2] else (False, True)):
             # pickle
             w = World(prog)
             it = w.it
@@ -250,6 +257,31 @@ def file_cases(prog, rep, fails):
                 rep.oblige("C19.stock-files", not problems, where="export_mfa_stocks_to_csv", what=str(inp2))
                 if problems:
                     note(fails, "C19.stock-files", "export_mfa_stocks_to_csv", inp2, "; ".join(problems[:3]))
+
+
+def stock_export_history(prog, rep, fails):
+    """one process: export_mfa_stocks_to_csv(with_in_and_out=True), then the default call - the second writes the stock files only"""
+    for gi, graph in enumerate(GRAPHS):
+        if not graph[2]:
+            continue
+        w = World(prog)
+        it = w.it
+        rec = {"csv": [], "dirs": set(), "pickle": []}
+        install_io(it, rec)
+        mfa = build(w, graph)
+        k1, _ = run_guarded(lambda: it.call_fn(prog.func(MOD, "export_mfa_stocks_to_csv"), [mfa, "outdir"], {"with_in_and_out": True}))
+        k0, _ = run_guarded(lambda: it.call_fn(prog.func(MOD, "export_mfa_flows_to_csv"), [mfa, "outdir"], {}))
+        rec["csv"].clear()
+        kind, r = run_guarded(lambda: it.call_fn(prog.func(MOD, "export_mfa_stocks_to_csv"), [mfa, "outdir2"], {}))
+        rep.evaluations += 1
+        inp = {"graph": gi, "history": "export_mfa_stocks_to_csv(with_in_and_out=True); export_mfa_flows_to_csv(); export_mfa_stocks_to_csv()"}
+        want = {f"outdir2/{valid_name(it, prog, k)}_stock.csv" for k in mfa.f["stocks"]}
+        got = [p for p, _ in rec["csv"]]
+        ok = kind == "ok" and set(got) == want and len(got) == len(want)
+        rep.oblige("C19.stock-files", ok, where="export_mfa_stocks_to_csv", what=str(inp))
+        if not ok:
+            note(fails, "C19.stock-files", "export_mfa_stocks_to_csv", inp,
+                 f"the default call after one with in/outflow writes {sorted(got)[:6]}; exactly {sorted(want)} are requested")
 
 
 def dict_equal(a, b):
@@ -363,6 +395,7 @@ def run(prog, rep):
         prog.func(MOD, f)
     fails = {}
     dict_cases(prog, rep, fails)
+    stock_export_history(prog, rep, fails)
     file_cases(prog, rep, fails)
     to_dfs_cases(prog, rep, fails)
     for (rule, qual), (count, inp, msg) in sorted(fails.items()):
